@@ -118,6 +118,14 @@ func (v *FnVerifier) alloc(st *State) string {
 
 // assumeClosed: pointers/slices/maps stored in heap `name` refer to allocated objects (< alloc).
 func (v *FnVerifier) assumeClosed(key, name, alloc string) {
+	if mt, ok := v.mapTypes[key]; ok && strings.HasPrefix(key, "MV!") {
+		cell := sel(sel(name, "m"), "k")
+		fact := v.closedFact(cell, mt.Elem(), alloc, 0)
+		if fact != "true" {
+			v.smt.assert(fmt.Sprintf("(forall ((m Int) (k %s)) (! %s :pattern (%s)))", v.smt.sortOf(mt.Key()), fact, cell))
+		}
+		return
+	}
 	t := v.reg.cellT[key]
 	if t == nil {
 		return
